@@ -19,12 +19,13 @@ class Ctx: seed = 4242; tier = "quick"
 PATH = "/verif/oracle/c01_pyspark.jsonl"
 if "--corpus" in sys.argv:
     # C01's extended program set: its corpus + every short program that asks for a direction through `ascending=`
+    # or gives a predicate as SQL text
     progs, _ = c01.make_programs(Ctx, extended=True)
     have = {json.dumps(json.loads(l)["steps"]) for l in open(PATH)}
     todo = []
     for i, p in enumerate(progs):
         (_, _), st = c01.plan_mode(p)
-        wanted = i < c01.N_CORPUS or (len(st) <= 2 and any(x[0] == "orderByFlags" for x in st))
+        wanted = i < c01.N_CORPUS or (len(st) <= 2 and any(x[0] == "orderByFlags" or (x[0] in ("where", "fillna") and len(x) > 2) for x in st))
         key = json.dumps(json.loads(json.dumps(st)))
         if wanted and st and key not in have:
             have.add(key)
